@@ -329,6 +329,15 @@ def run(ctx):
         seen = b.reach(0, src_edges=[de], cut_edges=es)
         if add.bb in seen:
             bad.append(("index-after-failed-write", "segment index entry can be added after a failed zone write", witness_path(b, seen, add.bb)))
+        # every non-empty event type of the memtable is written: the only permitted skip is `events.is_empty()`
+        nxs = [c_ for c_ in b.find_calls(r"Iterator>::next$") if b.can_reach(c_.bb, w.bb) and b.can_reach(w.bb, c_.bb)]
+        if not nxs:
+            raise AnchorMissing("loop over event types around flush_one_type_inner")
+        emp = [c_ for c_ in b.find_calls(r"Vec::is_empty$") if b.can_reach(nxs[0].bb, c_.bb) and b.can_reach(c_.bb, nxs[0].bb)]
+        allowed = [e_ for c_ in emp for e_ in bool_result_edge(b, c_, True)]
+        wpath = skipped_iteration(b, nxs[0], [w.bb], allowed)
+        if wpath:
+            bad.append(("event-type-not-flushed", "an event type with events can be skipped by the flush loop while the memtable is discarded", wpath))
         wi = F.fn("Flusher::flush_one_type_inner")
         wa = one(wi, r"ZoneWriter::write_all$")
         es2 = [e for (e, v) in ok_edges(wi, wa) if v == "Continue"]
